@@ -170,7 +170,7 @@ class Default(AgentStagingInputComponent):
             # we assume the 'current directory' is the target folder
             # and we assume the file to be copied is the base filename
             # of the source
-            elif os.path.exists(tgt.strip()) and os.path.isdir(tgt.strip()):
+            elif os.path.isdir(os.path.join(task_sandbox.path, tgt.strip())):
                 tgt = os.path.join(tgt, os.path.basename(src))
 
             src = complete_url(src, src_context, self._log)
